@@ -15,15 +15,26 @@ MANIFEST = {
             "write_outputs: to_value(from_value v) = v; from_json(to_json(from_value v)) = the same tree with sorted "
             "keys; the value read back is .== and bit/byte-identical to the original (reserved function form excluded by "
             "a decidable predicate, with refutation witnesses); a supplied document is echoed up to JSON value equality "
-            "(numbers as doubles, duplicate keys/key order quotiented); text level: serde_json's compact printer and "
-            "parser transcribed, parse(print j) = j proved under Section hypotheses on the number tokens; the shipped "
-            "number parser (no float_roundtrip) transcribed and refuted by a vm_compute witness. Model tied to the code "
-            "by tree-level and text-level correspondence streams; the round trip itself searched in process and through "
-            "the real CLI binary (-i and stdin)",
-    "note": "trusted: Coq kernel + vm_compute; hand transcription validated by differential streams (not proof); JSON "
-            "text <-> double (ryu printing, correctly rounded parsing) is a Section hypothesis, validated by sampling, "
-            "FALSE for the shipped build (known finding F17, fix proposed); serde_json Map = BTreeMap (preserve_order "
-            "off) re-checked on every run; parser/source printer for function values are oracles (C05/C10)",
+            "(numbers as doubles, duplicate keys/key order quotiented) - for every document the parser model returns, "
+            "with NO hypothesis on its numbers: the serde_json::Number invariant (u64 / negative i64 / finite f64) is "
+            "established by the parser model and by to_json, and u64/i64 `as f64` is proved finite (Flocq); text level: "
+            "serde_json's compact printer and parser transcribed, parse(print j) = j, parse-print-parse for every "
+            "accepted input text, and the echo program from the bytes of the input to the bytes of the output, proved "
+            "under two hypotheses on the float tokens (printer writes a well-formed float token; reading it gives the "
+            "double back) - and these hypotheses are PROVED for a global instance (exact decimal expansion printer + "
+            "the correctly rounded reader of C16), for which every text-level theorem is restated hypothesis-free; the "
+            "pre-fix number parser (no float_roundtrip) stays transcribed and refuted by a vm_compute witness. Model "
+            "tied to the code by tree-level and text-level correspondence streams (incl. the exact reader vs the real "
+            "serde_json parser on ryu texts, edge/random number texts and whole documents; the exact printer's texts "
+            "re-read by the real parser); the round trip itself searched in process and through the real CLI binary",
+    "note": "trusted: Coq kernel + vm_compute; the four standard-library axioms of Flocq/Reals under the theorems that "
+            "need u64/i64 `as f64` finite or the correctly rounded reader; hand transcription validated by differential "
+            "streams (not proof); NOT proved: that ryu (what serde_json really prints) writes the SHORTEST decimal that "
+            "reads back - the exact instance prints the full expansion instead; that ryu's text reads back is compared "
+            "per run (NUM/XNUM streams); that serde_json's float_roundtrip parser IS the correctly rounded reader is "
+            "compared per run (XNUM/XPARSE); serde_json Map = BTreeMap (preserve_order off) re-checked on every run; "
+            "parser/source printer for function values are oracles (C05/C10); PARTIAL: nothing is claimed about "
+            "function arms; nesting > 127 excluded (finding C06-F31, also at the echo level)",
     "design_ref": "DESIGN.md section 6 C06; notes/C06.md",
 }
 FN_KEY = "__blots_function"
@@ -424,6 +435,16 @@ HAND_TEXTS = [
     '{"a":1,"a":2,"b":{"a":3},"a":{"z":1,"y":2}}', '{"__blots_function":"sum"}', "[[[[[[[[1]]]]]]]]", '{"":{"":{"":0}}}',
     "  \n\t\r [ \n 1 \t , \r 2 ] \n ", "1.0E+2", "1.0e+02", "1e0000000000000000000005", "-1.5E-0",
 ]
+
+
+def count_floats(j):
+    if j[0] == "d":
+        return 1
+    if j[0] == "a":
+        return sum(count_floats(x) for x in j[1])
+    if j[0] == "o":
+        return sum(count_floats(x) for _, x in j[1])
+    return 0
 
 
 def gen_doc_from_table(rng, depth, nbits):
@@ -993,6 +1014,234 @@ def main(argv):
                        % (len(pr_mism), len(pdocs)), "first: doc %s impl=%s model=%s" % (enc_json(d), o, m))
     res.streams["PRINT"] = {"documents": len(pdocs), "mismatches": len(pr_mism)}
 
+    # ---------------------------------------------------------------- X streams: the exact instance (JsonExact.v)
+    # The model's correctly rounded reader rn_float_of_tok against the real serde_json parser (float_roundtrip build),
+    # and the model's exact-decimal printer exact_pieces against the real parser: the instance for which
+    # proofs/JsonInstance.v proves both library hypotheses is the reader of the build and a printer the build accepts.
+    XREQS = TREQS + ["Blots.JsonExact"]
+    from fractions import Fraction
+
+    def exp_hist(bits_list):
+        hist = {}
+        for b in bits_list:
+            e = (b >> 52) & 0x7ff
+            k = "zero" if (b & 0x7fffffffffffffff) == 0 else "subnormal" if e == 0 else \
+                "2^[-1022,-512)" if e < 511 else "2^[-512,-64)" if e < 959 else "2^[-64,0)" if e < 1023 else \
+                "2^[0,64)" if e < 1087 else "2^[64,512)" if e < 1535 else "2^[512,1024)"
+            hist[k] = hist.get(k, 0) + 1
+        return hist
+
+    if not fixed_build:
+        res.tie_broken("the linked serde_json does not parse numbers correctly rounded (float_roundtrip off): the exact "
+                       "reader rn_float_of_tok of coq/JsonExact.v does not describe the build", str(feats))
+        res.streams["X"] = {"skipped": "number_parse=%s" % feats.get("number_parse")}
+    else:
+        # XNUM: ryu's text of every NUM double read by the model's exact reader: must be the double (H_roundtrip for
+        # (ryu, correctly rounded reader)) and must be what serde_json itself reads back — no F17 exclusion
+        try:
+            xn = c.coq_eval_batch(XREQS, "", ['c06_xnum_line (hx "%s")' % hx(t) for t in ntexts], "c06xnum", shard=80)
+        except c.BrokenTie as e:
+            res.tie_broken(e.what, e.detail)
+            xn = [None] * len(nbits)
+        xn_mism = [(b, t, o, m) for b, t, o, m in zip(nbits, ntexts, nouts, xn)
+                   if m is None or m != o or not m.endswith("d%016x" % b)]
+        if xn_mism:
+            b, t, o, m = xn_mism[0]
+            res.tie_broken("correspondence C06/XNUM: the correctly rounded reader of the model (rn_float_of_tok) and "
+                           "serde_json disagree, or ryu's text does not read back, on %d of %d doubles"
+                           % (len(xn_mism), len(nbits)), "first: bits %016x text %s impl=%s model=%s" % (b, t, o, m))
+        res.streams["XNUM"] = {"doubles": len(nbits), "mismatches": len(xn_mism), "exponent_classes": exp_hist(nbits),
+                               "ryu_text_lengths": {"min": min(map(len, ntexts)), "max": max(map(len, ntexts))}}
+
+        # XPRINT: the model's exact decimal of a double: (a) its rational value IS the double (Python Fraction),
+        # (b) a JSON float token, (c) the real serde_json reads it back as that very double
+        n_xp = 200 if quick else 2000
+        xbits = list(BOUNDARY_BITS)
+        while len(xbits) < n_xp:
+            xbits.append(gen_bits(rng, False))
+        try:
+            xt = c.coq_eval_batch(XREQS, "", ["c06_exact_text 0x%016x" % b for b in xbits], "c06xprint", shard=16)
+        except c.BrokenTie as e:
+            res.tie_broken(e.what, e.detail)
+            xt = [None] * len(xbits)
+        xtexts = [bytes.fromhex(m).decode("ascii") if m else "null" for m in xt]
+        xback = c.harness_lines_resilient(h, "c06-parse", [hx(t) for t in xtexts])
+        xp_bad = []
+        for b, m, t, o in zip(xbits, xt, xtexts, xback):
+            ok = m is not None
+            if ok:
+                body = t[1:] if t.startswith("-") else t
+                ip, _, fp = body.partition(".")
+                ok = (ip.isdigit() and fp.isdigit() and (ip == "0" or not ip.startswith("0"))
+                      and t.startswith("-") == bool(b >> 63)
+                      and Fraction(int(ip + fp), 10 ** len(fp)) == abs(Fraction(b2f(b)))
+                      and o == "OK:d%016x" % b)
+            if not ok:
+                xp_bad.append((b, t[:80], o))
+        if xp_bad:
+            b, t, o = xp_bad[0]
+            res.tie_broken("correspondence C06/XPRINT: the exact decimal printer of the model is not exact, or serde_json "
+                           "does not read its text back as the double, on %d of %d doubles" % (len(xp_bad), len(xbits)),
+                           "first: bits %016x text %s... serde_json reads %s" % (b, t, o))
+        res.streams["XPRINT"] = {"doubles": len(xbits), "mismatches": len(xp_bad), "exponent_classes": exp_hist(xbits),
+                                 "text_lengths": {"min": min(map(len, xtexts)), "max": max(map(len, xtexts)),
+                                                  "mean": sum(map(len, xtexts)) // len(xtexts)}}
+
+        # XPARSE: the PARSE texts plus number-heavy texts through the parser model WITH the exact reader: every text,
+        # no class excluded
+        xtexts2 = list(texts)
+        edge_nums = ["1.7976931348623157e308", "1.7976931348623158e308", "1.7976931348623159e308",
+                     "179769313486231580793728971405303415079934132710037826936173778980444968292764750946649017977587207096"
+                     "330286416692887910946555547851940402630657488671505820681908902000708383676273854845817711531764475730"
+                     "270069855571366959622842914819860834936475292719074168444365510704342711559699508093042880177904174497791"
+                     ".9999999999999999999", "4.9406564584124654e-324", "2.4703282292062327e-324", "2.4703282292062328e-324",
+                     "2.47032822920623272088284396434110686182e-324", "2.470328229206232720882843964341106861825299013071623822127928412503377536351043e-324",
+                     "9007199254740993.0", "9007199254740993.0000000000000000000000000000001", "9007199254740992.9999",
+                     "0.500000000000000166533453693773481063544750213623046875", "1e23", "8.5e22", "9.5e22",
+                     "-0.0e-999999999999", "0.000e+999999999999", "1e-323", "1e-324", "1E400", "-1E-400", "123456789e-3",
+                     "0.1e-0", "1.0e+00"]
+        for t in edge_nums:
+            xtexts2.append(t)
+            xtexts2.append("[" + t + ",-" + t + "]")
+        n_xnumtexts = 150 if quick else 2000
+        xn_kinds = {"digits<=17": 0, "digits<=40": 0, "digits>40": 0, "exp": 0, "int-only": 0}
+        for _ in range(n_xnumtexts):
+            nd = rng.choice([1, 3, 9, 15, 16, 17, 18, 19, 20, 21, 25, 40, 80, 200])
+            ds = "".join(str(rng.below(10)) for _ in range(nd)).lstrip("0") or "0"
+            cut = rng.below(len(ds) + 1)
+            ip, fp = ds[:cut] or "0", ds[cut:]
+            ip = ip.lstrip("0") or "0"
+            t = ("-" if rng.chance(1, 3) else "") + ip + ("." + fp if fp else "")
+            if rng.chance(1, 2):
+                ex = rng.choice([0, 1, -1, 22, 23, -22, 300, 308, 309, -308, -323, -324, -340, 400, -400]) + rng.below(7) - 3
+                t += rng.choice("eE") + rng.choice(["", "+", "-"] if ex == 0 else ["", "+"] if ex > 0 else ["-"]) + str(abs(ex))
+                xn_kinds["exp"] += 1
+            elif not fp:
+                xn_kinds["int-only"] += 1
+            xn_kinds["digits<=17" if len(ds) <= 17 else "digits<=40" if len(ds) <= 40 else "digits>40"] += 1
+            xtexts2.append(t)
+        xpo = pouts + c.harness_lines_resilient(h, "c06-parse", [hx(t) for t in xtexts2[len(texts):]])
+        try:
+            xpm = c.coq_eval_batch(XREQS, "", ['c06_xparse_line (hx "%s")' % hx(t) for t in xtexts2], "c06xparse", shard=50)
+        except c.BrokenTie as e:
+            res.tie_broken(e.what, e.detail)
+            xpm = [None] * len(xtexts2)
+        xp_mism = [(t, o, m) for t, o, m in zip(xtexts2, xpo, xpm) if m is None or m != o]
+        if xp_mism:
+            t, o, m = xp_mism[0]
+            res.tie_broken("correspondence C06/XPARSE: the parser model with the correctly rounded reader and "
+                           "serde_json::from_str disagree on %d of %d texts" % (len(xp_mism), len(xtexts2)),
+                           "first: text %r impl=%s model=%s" % (t[:200], o, m))
+        res.streams["XPARSE"] = {"texts": len(xtexts2), "mismatches": len(xp_mism), "document_texts": len(texts),
+                                 "edge_number_texts": 2 * len(edge_nums), "random_number_texts": n_xnumtexts,
+                                 "random_number_kinds": xn_kinds,
+                                 "rejected_by_impl": sum(1 for o in xpo if o == "ERR")}
+
+        # XRT: documents printed by the model with the exact printer: the model's own parser reads the document back
+        # (what C06_json_text_roundtrip_exact proves) and so does the real serde_json (as the built Value)
+        n_xrt = 60 if quick else 600
+        xdocs = []
+        while len(xdocs) < n_xrt:
+            if rng.chance(1, 2):
+                xdocs.append(gen_doc_from_table(rng, 1 + rng.below(4), xbits))
+            else:
+                fl = [("d", rng.choice(xbits)) for _ in range(1 + rng.below(5))]
+                xdocs.append(("o", [(gen_key(rng), ("a", fl)), (gen_key(rng), rng.choice(fl))]) if rng.chance(1, 2)
+                             else ("a", fl))
+        try:
+            xr = c.coq_eval_batch(XREQS, "", ["c06_xrt_line %s" % coq_json(d) for d in xdocs], "c06xrt", shard=8)
+        except c.BrokenTie as e:
+            res.tie_broken(e.what, e.detail)
+            xr = [None] * len(xdocs)
+        xr_f = [m.split(" ") if m else ["", "?", ""] for m in xr]
+        xr_back = c.harness_lines_resilient(h, "c06-parse", [f[0] for f in xr_f])
+        xr_mism = [(d, f, o) for d, f, o in zip(xdocs, xr_f, xr_back) if f[1] != "T" or o != "OK:" + f[2]]
+        if xr_mism:
+            d, f, o = xr_mism[0]
+            res.tie_broken("correspondence C06/XRT: a document printed with the exact printer is not read back (model "
+                           "parser: %s) or serde_json reads something else, on %d of %d documents"
+                           % (f[1], len(xr_mism), len(xdocs)),
+                           "first: doc %s text %s... impl=%s expected=OK:%s" % (enc_json(d)[:300], f[0][:120], o[:300], f[2][:300]))
+        res.streams["XRT"] = {"documents": len(xdocs), "mismatches": len(xr_mism),
+                              "float_leaves": sum(count_floats(d) for d in xdocs),
+                              "text_bytes": sum(len(f[0]) // 2 for f in xr_f)}
+
+    # ---------------------------------------------------------------- XECHO: the echo program, model vs the real binary
+    # cli_text_echo (coq/JsonWf.v) with the exact reader and C16's executable ryu reference as printer, against
+    # `blots --input=<text> 'output x = inputs.<key>'`: stdout byte for byte, or failure on both sides
+    if fixed_build:
+        n_xe = 140 if quick else 2000
+        xe_jobs = []
+        xe_kinds = {}
+        while len(xe_jobs) < n_xe:
+            kind = rng.choice(["obj", "obj", "obj", "fancy", "fancy", "dup", "missing", "bare", "bare", "malformed", "nums"])
+            d = gen_doc(rng, 1 + rng.below(5))
+            if kind == "nums":
+                d = ("a", [("d", gen_bits(rng, False)) for _ in range(1 + rng.below(6))]
+                     + [("u", rng.choice([0, 1, (1 << 53) + 1, (1 << 63), (1 << 64) - 1])), ("i", -rng.choice([1, (1 << 53) + 1, 1 << 63]))])
+            t = doc_to_text(d, rng, fancy=(kind == "fancy"))
+            key, prog = "x", ECHO
+            if kind in ("obj", "fancy", "nums"):
+                text = '{"x":' + t + "}"
+            elif kind == "dup":
+                text = '{"x":' + doc_to_text(gen_doc(rng, 2), rng) + ',"y":0, "x" : ' + t + "}"
+            elif kind == "missing":
+                text = '{"y":' + t + "}"
+            elif kind == "bare":
+                if d[0] == "o":
+                    continue
+                text, key, prog = t, "value_1", ECHO1
+            else:
+                text = '{"x":' + t + "}"
+                i = rng.below(len(text))
+                text = text[:i] + text[i + 1:] if rng.chance(1, 2) else text[:i]
+            try:
+                if tree_has_reserved(loads_tok(text), fn_table):
+                    continue
+            except Exception:
+                pass
+            if "\x00" in text:
+                continue            # not passable as a process argument
+            xe_kinds[kind] = xe_kinds.get(kind, 0) + 1
+            xe_jobs.append((kind, text, key, prog))
+        def xe_one(j):
+            rc, out, err = run_cli(cli, ["--input=" + j[1], j[3]])
+            # second leg (C06_cli_text_echo_fixed_point): the bytes written, fed back, are written again unchanged
+            out2 = run_cli(cli, [ECHO], stdin_text=out)[1] if rc == 0 else None
+            return rc, out, err, out2
+
+        with ThreadPoolExecutor(max_workers=8) as ex:
+            xe_real4 = list(ex.map(xe_one, xe_jobs))
+        xe_real = [r[:3] for r in xe_real4]
+        for j, r in zip(xe_jobs, xe_real4):
+            if r[0] == 0 and r[3] != r[1]:
+                res.violation("the output of the echo program, fed back as input, is not reproduced byte for byte",
+                              {"kind": "cli-echo-fixed-point", "input_json": j[1], "program": j[3], "first_output": r[1][:2000],
+                               "second_output": (r[3] or "")[:2000],
+                               "rerun": "blots --input=<input_json> '%s' | blots '%s'" % (j[3], ECHO)})
+                break
+        try:
+            xe_model = c.coq_eval_batch(XREQS, "", ['c06_xecho_line (hx "%s") "%s" "x"' % (hx(j[1]), j[2]) for j in xe_jobs],
+                                        "c06xecho", shard=10)
+        except c.BrokenTie as e:
+            res.tie_broken(e.what, e.detail)
+            xe_model = [None] * len(xe_jobs)
+        xe_mism = []
+        xe_err = 0
+        for (kind, text, key, prog), (rc, out, err), m in zip(xe_jobs, xe_real, xe_model):
+            real = "OK:" + out.rstrip("\n").encode("utf-8").hex() if rc == 0 else "ERR"
+            xe_err += rc != 0
+            if m is None or m != real:
+                xe_mism.append((kind, text, prog, real, m, err))
+        if xe_mism:
+            kind, text, prog, real, m, err = xe_mism[0]
+            res.tie_broken("correspondence C06/XECHO: the text-level echo model (cli_text_echo) and the real binary disagree "
+                           "on %d of %d inputs" % (len(xe_mism), len(xe_jobs)),
+                           "first (%s): blots --input=%r %r -> %s %s ; model=%s" % (kind, text[:300], prog, real[:300], err[:100], (m or "")[:300]))
+        res.streams["XECHO"] = {"inputs": len(xe_jobs), "mismatches": len(xe_mism), "kinds": xe_kinds,
+                                "failing_on_both_sides": xe_err,
+                                "second_leg_byte_identical": sum(1 for r in xe_real4 if r[0] == 0 and r[3] == r[1])}
+
     # ---------------------------------------------------------------- search 1: in process, THROUGH TEXT
     n_rt = 4000 if quick else 60000
     rts = []
@@ -1189,6 +1438,24 @@ def main(argv):
                       {"kind": "cli-depth", "program": prog, "depth": n, "second_run": (out2 + err2)[:300],
                        "rerun": "blots '%s' | blots '%s'" % (prog, ECHO)})
         break
+    # the same limit at the echo level (Coq: C06_cli_text_echo_non_object needs nesting <= 126,
+    # C06_cli_text_echo_depth_refuted): a bare array nested n deep is echoed one level deeper
+    for n in (100, 126, 127):
+        txt = "[" * n + "]" * n
+        rc1, out1, err1 = run_cli(cli, ["-i", txt, ECHO1])
+        if rc1 != 0:
+            res.violation("the CLI rejects a bare JSON array nested %d deep" % n,
+                          {"kind": "cli-depth", "input_json": txt, "program": ECHO1, "observed": (out1 + err1)[:300]})
+            break
+        rc2, out2, err2 = run_cli(cli, [ECHO], stdin_text=out1)
+        ok = rc2 == 0 and out2 == out1
+        depth_res["bare-%d" % n] = "ok" if ok else ("rejected" if "recursion limit" in err2 else "differs")
+        if ok or (n + 1 > 127 and depth_res["bare-%d" % n] == "rejected" and "C06-F31" in known):
+            continue
+        res.violation("the echo of a bare nested array is not read back (input -> output -> input)",
+                      {"kind": "cli-depth", "input_json": txt, "program": ECHO1, "depth": n,
+                       "second_run": (out2 + err2)[:300]})
+        break
     res.streams["CLI-depth"] = depth_res
 
     # ---------------------------------------------------------------- known findings
@@ -1210,8 +1477,12 @@ def main(argv):
         else:
             res.known("%s %s" % (kid, e.get("what", "")))
 
+    x_cases = x_ok = 0
+    if fixed_build:
+        x_cases = len(nbits) + len(xbits) + len(xtexts2) + len(xdocs) + len(xe_jobs)
+        x_ok = x_cases - len(xn_mism) - len(xp_bad) - len(xp_mism) - len(xr_mism) - len(xe_mism)
     res.coverage["evaluations"] = (len(vals) + len(docs) + len(rts) + 2 * len(jobs) + len(nbits) + len(texts)
-                                   + len(pdocs))
+                                   + len(pdocs) + x_cases)
     res.coverage["distinct_nontrivial"] = (len({enc_value(v) for v in vals if v[0] in ("list", "rec")})
                                            + len({enc_json(d) for d in docs if d[0] in ("a", "o")})
                                            + len({enc_value(v) for v in rts}))
@@ -1223,10 +1494,11 @@ def main(argv):
                                    "stdout": results[i][1].strip()[:300]} for i in (40, 41)])
     res.coverage["traces_validated_against_impl"] = ((len(vals) - len(mism)) + (len(docs) - len(jm))
                                                      + (len(nbits) - len(num_mism)) + (len(texts) - len(p_mism))
-                                                     + (len(pdocs) - len(pr_mism)))
+                                                     + (len(pdocs) - len(pr_mism)) + x_ok)
     res.assumptions = [
-        "JSON text <-> double conversion is library code (serde_json/ryu): hypothesis of the text-level theorem, "
-        "validated by sampling; FALSE for the shipped build (known finding C06-F17)",
+        "JSON text <-> double conversion is library code (serde_json/ryu): two hypotheses of the text-level theorems, "
+        "proved for the instance (exact decimal printer, correctly rounded reader) of coq/JsonExact.v; that the build's "
+        "reader is that reader and that ryu's shortest text reads back is compared per run (XNUM/XPARSE/NUM), not proved",
         "parse_function_source / body parser / source printer are oracles (tables filled from the real code per run)",
         "serde_json::Map iterates in byte-wise key order (BTreeMap; preserve_order off) - probed on every run",
     ]
